@@ -3,3 +3,5 @@ import NiflyVerif.Util.IndexLemmas
 import NiflyVerif.Props.C18
 import NiflyVerif.Graph.Header
 import NiflyVerif.Props.C06
+import NiflyVerif.TexPath
+import NiflyVerif.Props.C19
